@@ -200,12 +200,15 @@ structure Sender where
   si   : BitVec 16
   t0   : BitVec 32          -- TSN of the first fragment of the first message (any value)
   msgs : List Msg
+  /-- TSNs used by OTHER streams of the association before message `k` of this one (the streams share the TSN
+  space; the fragments of one message still get consecutive TSNs). Irrelevant to the reassembly queue. -/
+  skip : Nat → Nat := fun _ => 0
 deriving Inhabited
 
 def Sender.msg (S : Sender) (k : Nat) : Msg := S.msgs.getD k default
 def Sender.nf (S : Sender) (k : Nat) : Nat := (S.msg k).nf
 /-- number of fragments of all messages before message `k` (consecutive TSNs per message). -/
-def Sender.base (S : Sender) (k : Nat) : Nat := ((S.msgs.take k).map Msg.nf).sum
+def Sender.base (S : Sender) (k : Nat) : Nat := ((S.msgs.take k).map Msg.nf).sum + S.skip k
 
 /-- ordered DATA fragment `i` of message `k`: SSN = `k` (mod 2^16), TSN consecutive, B/E at the ends,
 every fragment carries the PPI. -/
